@@ -205,7 +205,7 @@ theorem fits_texts {s : SArg} {a : Arg} (h : s.fits a = true) : ∀ l ∈ argErr
     simp only [Option.map_some]
     unfold argErrs at hl
     rw [ho] at hl
-    cases hkk : a.kind <;> rw [hkk] at hl <;> simp at hl <;> simp [hl]
+    cases hkk : a.kind <;> rw [hkk] at hl <;> simp at hl <;> (first | (rcases hl with rfl | rfl) | skip) <;> simp_all
   | none =>
     simp only [Option.map_none]
     unfold argErrs at hl
@@ -435,6 +435,179 @@ theorem lua_agrees_src {resp lua : List SRow} (h : rowsDescribe resp (shapeRows 
   obtain ⟨r, hr, _, hn, _⟩ := lua_governed hl name args sl hfl
   obtain ⟨r', hr', _, hn', _⟩ := resp_governed h name args s hf
   exact ⟨lua_agrees_partial name args c hacc, ⟨r, hr, hn⟩, ⟨r', hr', hn'⟩⟩
+
+/-! ## table-driven commands: the grammar is COMPUTED from the regenerated row
+
+  For the commands whose body is one of the four table-driven forms (`const`, `fixed`, `many`, `pairs`: 71 of the 97
+  top-level entries of `from_resp`'s table) the regenerated row does not merely constrain the model's entry: it determines it.  `SRow.body?`
+  builds the body from the row alone (constructor, slot kinds, tail); `body_of_described` shows that a row that describes a
+  table-driven entry yields exactly that entry's body; hence `resp_dsl_is_generated`: for every frame of such a command,
+  `parseCmd` is the arity test of the regenerated row followed by the body GENERATED from the regenerated row. -/
+
+theorem plain_of_fits {s : SArg} {a : Arg} (h : s.fits a = true) (hp : a.isPlain = true) (hk : s.kind ≠ .num) :
+    s.plain? = some a := by
+  simp only [SArg.fits, Bool.and_eq_true, beq_iff_eq] at h
+  obtain ⟨hkind, herr⟩ := h
+  cases a with
+  | mk kind onErr =>
+    simp only [Arg.isPlain, Option.isNone_iff_eq_none] at hp
+    subst hp
+    simp only [Option.map_none] at herr
+    cases hs : s.kind with
+    | num => exact absurd hs hk
+    | k b =>
+      rw [hs] at hkind
+      simp only [SKind.fits, beq_iff_eq] at hkind
+      subst hkind
+      simp [SArg.plain?, hs, herr]
+
+theorem plainArgs_of_fits : ∀ {ss : List SArg} {as : List Arg}, all2 SArg.fits ss as = true →
+    as.all Arg.isPlain = true → ss.all SArg.definite = true → plainArgs? ss = some as
+  | [], [], _, _, _ => rfl
+  | s :: ss, a :: as, h, hp, hd => by
+    simp only [all2, Bool.and_eq_true] at h
+    simp only [List.all_cons, Bool.and_eq_true] at hp hd
+    have hk : s.kind ≠ .num := by
+      have := hd.1
+      simp only [SArg.definite, bne_iff_ne, ne_eq] at this
+      exact this
+    simp only [plainArgs?, plain_of_fits h.1 hp.1 hk, plainArgs_of_fits h.2 hp.2 hd.2]
+  | [], _ :: _, h, _, _ => by simp [all2] at h
+  | _ :: _, [], h, _, _ => by simp [all2] at h
+
+theorem singleton_of_same {c : Bytes} {cs : List Bytes}
+    (h : sameUpToOrder (fun (a b : Bytes) => a == b) cs [c] = true) : cs = [c] := by
+  simp only [sameUpToOrder, Bool.and_eq_true, beq_iff_eq, List.length_cons, List.length_nil, Nat.zero_add] at h
+  obtain ⟨⟨hl, ha⟩, _⟩ := h
+  match cs, hl with
+  | [x], _ =>
+    simp only [List.all_cons, List.all_nil, Bool.and_true, List.any_cons, List.any_nil, Bool.or_false, beq_iff_eq] at ha
+    rw [ha]
+
+theorem nil_of_all2_nil {α β : Type} {p : α → β → Bool} {a : List α} (h : all2 p a ([] : List β) = true) : a = [] := by
+  cases a with
+  | nil => rfl
+  | cons x xs => simp [all2] at h
+
+theorem nil_of_same_nil {α β : Type} {p : α → β → Bool} {a : List α}
+    (h : sameUpToOrder p a ([] : List β) = true) : a = [] := by
+  simp only [sameUpToOrder, Bool.and_eq_true, beq_iff_eq, List.length_nil] at h
+  exact List.eq_nil_of_length_eq_zero h.1.1
+
+/-- the body generated from a row that describes a table-driven entry IS that entry's body -/
+theorem body_of_described {r : SRow} {name aerr : Bytes} {ar : Arity} {b : Body}
+    (d : Described r ⟨name, ar, aerr, b.gen⟩) (hb : b.plainDsl = true) (hdef : r.definite = true) :
+    r.body? = some b := by
+  have hopt : r.opt = [] := by
+    have := d.opt
+    cases b <;> simp only [Body.gen] at this <;> first | exact nil_of_all2_nil this | simp [Body.plainDsl] at hb
+  have hfl : r.flits = [] := by
+    have := d.flits
+    cases b <;> simp only [Body.gen] at this <;> first | exact nil_of_same_nil this | simp [Body.plainDsl] at hb
+  have hch : r.checks = [] := by
+    have := d.checks
+    cases b <;> simp only [Body.gen] at this <;> first | exact nil_of_all2_nil this | simp [Body.plainDsl] at hb
+  simp only [SRow.definite, Bool.and_eq_true] at hdef
+  cases b with
+  | custom cb => simp [Body.plainDsl] at hb
+  | const c =>
+    have hc := singleton_of_same (by simpa [Body.gen] using d.ctors)
+    have hs : r.slots = [] := nil_of_all2_nil (by simpa [Body.gen] using d.slots)
+    have ht := d.tail
+    simp only [Body.gen, STail.fits, Bool.and_eq_true, beq_iff_eq, List.isEmpty_iff] at ht
+    simp [SRow.body?, hc, hopt, hfl, hch, hs, ht.1.1, ht.1.2, ht.2, plainArgs?]
+  | fixed c slots =>
+    have hc := singleton_of_same (by simpa [Body.gen] using d.ctors)
+    simp only [Body.plainDsl] at hb
+    have hs := plainArgs_of_fits (by simpa [Body.gen] using d.slots) hb hdef.1
+    have ht := d.tail
+    simp only [Body.gen, STail.fits, Bool.and_eq_true, beq_iff_eq, List.isEmpty_iff] at ht
+    simp [SRow.body?, hc, hopt, hfl, hch, hs, ht.1.1, ht.1.2, ht.2]
+  | many c pre each =>
+    have hc := singleton_of_same (by simpa [Body.gen] using d.ctors)
+    simp only [Body.plainDsl, Bool.and_eq_true] at hb
+    have hs := plainArgs_of_fits (by simpa [Body.gen] using d.slots) hb.1 hdef.1
+    have ht := d.tail
+    simp only [Body.gen, STail.fits, Bool.and_eq_true, beq_iff_eq, List.isEmpty_iff] at ht
+    cases hrt : r.tail <;> rw [hrt] at ht <;> simp at ht
+    rename_i a
+    rw [hrt] at hdef
+    have ha := plain_of_fits ht.1.1 hb.2 (by simpa [SArg.definite] using hdef.2)
+    simp [SRow.body?, hc, hopt, hfl, hch, hs, hrt, ht.1.2, ht.2, ha]
+  | pairs c pre x y =>
+    have hc := singleton_of_same (by simpa [Body.gen] using d.ctors)
+    simp only [Body.plainDsl, Bool.and_eq_true] at hb
+    have hs := plainArgs_of_fits (by simpa [Body.gen] using d.slots) hb.1.1 hdef.1
+    have ht := d.tail
+    simp only [Body.gen, STail.fits, Bool.and_eq_true, beq_iff_eq, List.isEmpty_iff] at ht
+    cases hrt : r.tail <;> rw [hrt] at ht <;> simp at ht
+    rename_i a a'
+    rw [hrt] at hdef
+    simp only [Bool.and_eq_true] at hdef
+    have ha := plain_of_fits ht.1.1.1 hb.1.2 (by simpa [SArg.definite] using hdef.2.1)
+    have ha' := plain_of_fits ht.1.1.2 hb.2 (by simpa [SArg.definite] using hdef.2.2)
+    simp [SRow.body?, hc, hopt, hfl, hch, hs, hrt, ht.1.2, ht.2, ha, ha']
+
+/-- `Command::from_resp` on a TABLE-DRIVEN command: the arity test of the regenerated row, then the body GENERATED from
+    the regenerated row — the hand-written entry is not used on the right-hand side -/
+theorem resp_dsl_is_generated {src : List SRow} (h : rowsDescribe src (shapeRows table) = true)
+    (hdef : src.all SRow.definite = true)
+    (name : Bytes) (args : List Bytes) (s : Spec) (hf : findEntry table (kw name) = some (.cmd s))
+    (hb : s.body.plainDsl = true) :
+    ∃ r ∈ src, r.name = kw name ∧ ∃ b, r.body? = some b ∧
+      parseCmd (name :: args) =
+        if r.arity.ok args.length then liftB (b.run args) else .error (.arity r.aerr) := by
+  obtain ⟨r, hr, d, hn, _⟩ := resp_governed h name args s hf
+  have hd := List.all_eq_true.mp hdef r hr
+  have hbody : r.body? = some s.body := body_of_described (name := [] ++ s.name) (ar := s.arity) (aerr := s.arityErr) d hb hd
+  refine ⟨r, hr, hn, s.body, hbody, ?_⟩
+  rw [parse_of_find hf, d.arity, d.aerr]
+  unfold Spec.run
+  have ha : (s.row []).arity = s.arity := rfl
+  have he : (s.row []).arityErr = s.arityErr := rfl
+  rw [ha, he]
+  cases s.arity.ok args.length with
+  | false => rfl
+  | true =>
+    simp only [if_true]
+    cases s.body.run args <;> rfl
+
+/-- the same one level down: a table-driven SUB-command (CONFIG GET, ACL SETUSER, SCRIPT LOAD, CLIENT SETNAME, OBJECT
+    ENCODING, DEBUG SLEEP …) is parsed by the body generated from its regenerated row `FAMILY.SUB` -/
+theorem resp_dsl_sub_is_generated {src : List SRow} (h : rowsDescribe src (shapeRows table) = true)
+    (hdef : src.all SRow.definite = true)
+    (name sub : Bytes) (args : List Bytes) (fam aerr : Bytes) (subs : List Spec)
+    (dflt : Bytes → List Bytes → Res) (s : Spec)
+    (hf : findEntry table (kw name) = some (.family fam aerr subs dflt)) (hs : findSpec subs (kw sub) = some s)
+    (hb : s.body.plainDsl = true) :
+    ∃ r ∈ src, r.name = fam ++ 46 :: s.name ∧ ∃ b, r.body? = some b ∧
+      parseCmd (name :: sub :: args) =
+        if r.arity.ok args.length then liftB (b.run args) else .error (.arity r.aerr) := by
+  obtain ⟨r, hr, d, hn, _⟩ := resp_governed_sub h name sub args fam aerr subs dflt s hf hs
+  have hd := List.all_eq_true.mp hdef r hr
+  have hbody : r.body? = some s.body :=
+    body_of_described (name := (fam ++ [46]) ++ s.name) (ar := s.arity) (aerr := s.arityErr) d hb hd
+  refine ⟨r, hr, hn, s.body, hbody, ?_⟩
+  simp only [parseCmd, parseWith, hf, hs]
+  have ha : r.arity = s.arity := d.arity
+  have he : r.aerr = s.arityErr := d.aerr
+  rw [ha, he]
+  unfold Spec.run
+  cases s.arity.ok args.length with
+  | false => rfl
+  | true =>
+    simp only [if_true]
+    cases s.body.run args <;> rfl
+
+/-- the sub-commands in the scope of `resp_dsl_sub_is_generated` -/
+theorem dsl_subcommands_count :
+    ((table.flatMap fun e => match e with | .family _ _ subs _ => subs | _ => []).filter (fun s => s.body.plainDsl)).length = 24 := by
+  decide +kernel
+
+/-- how many commands of `from_resp`'s table are table-driven with plain slots (the scope of `resp_dsl_is_generated`): 71 of the 97 top-level entries; the sub-commands of the seven families are
+    table-driven too (`resp_governed_sub` gives their rows) -/
+theorem dsl_commands_count :
+    (table.filter (fun e => match e with | .cmd s => s.body.plainDsl | _ => false)).length = 71 := by decide +kernel
 
 /-! ## the normal form of the hand-written tables (`Model/GrammarShapesNF.lean`)
 
